@@ -31,6 +31,33 @@ type Prog struct {
 	// AllFuncs are all SSA functions with bodies that belong to repo packages
 	// (including anonymous functions and methods).
 	AllFuncs []*ssa.Function
+	// Overlay holds the normalised text of files in which calls to new helper
+	// functions were replaced by the helper's body (empty on the pinned tree).
+	Overlay map[string][]byte
+	NormLog []string
+}
+
+func hasErrors(pkgs []*packages.Package) bool {
+	bad := false
+	packages.Visit(pkgs, nil, func(p *packages.Package) {
+		if strings.HasPrefix(p.PkgPath, ModPath) && len(p.Errors) > 0 {
+			bad = true
+		}
+	})
+	return bad
+}
+
+func firstError(pkgs []*packages.Package, err error) string {
+	if err != nil {
+		return err.Error()
+	}
+	msg := ""
+	packages.Visit(pkgs, nil, func(p *packages.Package) {
+		if msg == "" && strings.HasPrefix(p.PkgPath, ModPath) && len(p.Errors) > 0 {
+			msg = p.Errors[0].Error()
+		}
+	})
+	return msg
 }
 
 // RepoDir returns the directory of the repository under analysis.
@@ -58,6 +85,33 @@ func Load(dir string, goos string) (*Prog, error) {
 	if err != nil {
 		return nil, fmt.Errorf("packages.Load: %w", err)
 	}
+	// normalisation: see through helper functions that did not exist on the pinned tree
+	overlay := map[string][]byte{}
+	var normLog []string
+	if os.Getenv("SCIONCHECK_NOINLINE") == "" && !hasErrors(pkgs) {
+		for round := 0; round < 4; round++ {
+			changed, log := NormalizeOverlay(pkgs, overlay)
+			if len(changed) == 0 {
+				break
+			}
+			next := map[string][]byte{}
+			for k, v := range overlay {
+				next[k] = v
+			}
+			for k, v := range changed {
+				next[k] = v
+			}
+			cfg2 := *cfg
+			cfg2.Overlay = next
+			pkgs2, err2 := packages.Load(&cfg2, "./...")
+			if err2 != nil || hasErrors(pkgs2) {
+				normLog = append(normLog, fmt.Sprintf("round %d discarded: rewritten source does not type-check (%s)", round, firstError(pkgs2, err2)))
+				break
+			}
+			overlay, pkgs = next, pkgs2
+			normLog = append(normLog, log...)
+		}
+	}
 	var errs []string
 	packages.Visit(pkgs, nil, func(p *packages.Package) {
 		if !strings.HasPrefix(p.PkgPath, ModPath) {
@@ -75,7 +129,7 @@ func Load(dir string, goos string) (*Prog, error) {
 	}
 	prog, spkgs := ssautil.Packages(pkgs, ssa.InstantiateGenerics)
 	prog.Build()
-	p := &Prog{Dir: dir, Fset: prog.Fset, Pkgs: pkgs, SSA: prog,
+	p := &Prog{Dir: dir, Fset: prog.Fset, Pkgs: pkgs, SSA: prog, Overlay: overlay, NormLog: normLog,
 		byPath: map[string]*packages.Package{}, ssaPkg: map[string]*ssa.Package{}}
 	for i, pk := range pkgs {
 		p.byPath[pk.PkgPath] = pk
@@ -113,6 +167,35 @@ func Load(dir string, goos string) (*Prog, error) {
 				}
 			}
 		}
+	}
+	// helper functions that did not exist on the pinned tree and whose every call was seen
+	// through by the normalisation are dead code for the analysis
+	if len(overlay) > 0 {
+		referenced := map[*ssa.Function]bool{}
+		for _, f := range p.AllFuncs {
+			for _, b := range f.Blocks {
+				for _, in := range b.Instrs {
+					for _, op := range in.Operands(nil) {
+						if g, ok := (*op).(*ssa.Function); ok && g != f {
+							referenced[g] = true
+						}
+					}
+				}
+			}
+		}
+		var kept []*ssa.Function
+		for _, f := range p.AllFuncs {
+			root := f
+			for root.Parent() != nil {
+				root = root.Parent()
+			}
+			if obj, ok := root.Object().(*types.Func); ok && !knownFuncs[obj.FullName()] && !referenced[root] {
+				p.NormLog = append(p.NormLog, "absorbed: "+obj.FullName())
+				continue
+			}
+			kept = append(kept, f)
+		}
+		p.AllFuncs = kept
 	}
 	sort.Slice(p.AllFuncs, func(i, j int) bool { return p.AllFuncs[i].String() < p.AllFuncs[j].String() })
 	return p, nil
